@@ -229,6 +229,12 @@ func (ch *channel) parseModes(modes string, modeargs ...string) {
 				logging.Warn("Channel.ParseModes(): not enough arguments to "+
 					"process MODE %s %s%c", ch.name, modestr, m)
 			}
+		case 'b', 'e', 'I':
+			// The ban, ban exception and invite exception lists are not
+			// tracked, but their mask must not be left for the next mode.
+			if len(modeargs) != 0 {
+				modeargs = modeargs[1:]
+			}
 		default:
 			logging.Info("Channel.ParseModes(): unknown mode char %c", m)
 		}
